@@ -3,6 +3,7 @@
 package gen
 
 import (
+	"fmt"
 	"math"
 	"strconv"
 	"time"
@@ -12,15 +13,16 @@ import (
 )
 
 type Opts struct {
-	MaxDepth       int
-	MaxEntries     int
-	MaxWidth       int
-	FirstPopulated bool // every group entry populates its first field (and it is a field)
-	PopulateProb   int  // percent chance that an optional leaf is populated
-	AllowEmptyVals bool // allow populated-but-empty strings / raw
-	AllowEmptyEnt  bool // allow entries with nothing populated
-	FixedFraming   bool // framing tags 8/9/10/35
-	LongLists      bool // now and then a group with 9..120 entries
+	MaxDepth        int
+	MaxEntries      int
+	MaxWidth        int
+	FirstPopulated  bool // every group entry populates its first field (and it is a field)
+	PopulateProb    int  // percent chance that an optional leaf is populated
+	AllowEmptyVals  bool // allow populated-but-empty strings / raw
+	AllowEmptyEnt   bool // allow entries with nothing populated
+	FixedFraming    bool // framing tags 8/9/10/35
+	LongLists       bool // now and then a group with 9..120 entries
+	TrailerCheckSum bool // now and then the trailer template lists the CheckSum field as a member (as the FIX trailer does)
 }
 
 func DefaultOpts() Opts {
@@ -181,6 +183,14 @@ func (g *G) Float() float64 {
 
 // Time returns a UTC instant at millisecond precision, year 0..9999.
 func (g *G) Time() time.Time {
+	if g.R.Chance(1, 12) { // instants a formatter or an "is it set" test may single out
+		return []time.Time{
+			{}, // 0001-01-01T00:00:00.000Z, Go's zero time
+			time.Unix(0, 0).UTC(),
+			time.Date(9999, 12, 31, 23, 59, 59, 999000000, time.UTC),
+			time.Date(1, 1, 1, 0, 0, 0, 1000000, time.UTC),
+		}[g.R.Intn(4)]
+	}
 	y := g.R.Range(1970, 2100)
 	switch g.R.Intn(6) {
 	case 0:
@@ -356,5 +366,14 @@ func (g *G) Message() *desc.Msg {
 	m.Header = g.populate(ht, false)
 	m.Body = g.populate(bt, false)
 	m.Trailer = g.populate(tt, false)
+	if g.O.TrailerCheckSum && g.R.Chance(1, 8) {
+		// the trailer lists CheckSum itself, empty or holding a value set by hand or left by a parse:
+		// the only CheckSum on the wire is the computed one
+		v := &desc.Val{Kind: 'S'}
+		if g.R.Chance(3, 4) {
+			v = &desc.Val{Kind: 'S', Valid: true, S: []byte(fmt.Sprintf("%03d", g.R.Intn(256))), Route: routes[g.R.Intn(3)]}
+		}
+		m.Trailer = append(m.Trailer, &desc.Item{Kind: 'K', Tag: m.CsTag, V: v})
+	}
 	return m
 }
